@@ -28,6 +28,13 @@ def check(repo, rep):
     for l in lv:
         gens = [e for e in l.effects if e[0] == 'call' and isgen(e[1])]
         where = W(l.node) if l.node is not None else W(tk)
+        if not gens and l.outcome != 'raise':
+            # the tokens of this path do not come from the generator the tokenizer analysis covered (a second driver loop, a helper):
+            # what that code delivers was not decided
+            other = sorted({e[1][1][2] for e in l.effects if e[0] == 'call' and e[1][0] == 'call' and e[1][1][0] == 'attr' and e[1][1][1] == ('self',) and ('p', 'data_source') in e[1][2]})
+            modes['uncovered'] = modes.get('uncovered', 0) + 1
+            rep.unknown('StreamTokenizer.tokenize: a path serves its caller without the token generator%s (through %s); that code is not covered by the tokenizer analysis' % (' ' + gen_name if gen_name else '', other or 'nothing recognised'))
+            continue
         rep.ob('tokenize() creates the token generator exactly once per call', len({id(e[3]) for e in gens}) == 1, where, 'StreamTokenizer.tokenize:one-generator',
                '%d generator creations on a path' % len(gens))
         if not gens:
@@ -65,6 +72,8 @@ def check(repo, rep):
             rep.ob('list mode returns list(token generator)', P.call('list', P.same(g))(l.value) or (star_list and lv_[0] == 'list'), where, 'StreamTokenizer.tokenize:list-mode', 'returns %s' % show(l.value)[:100],
                    sample=dict(mode='list', returns=show(l.value)[:80]))
     for k, n in modes.items():
+        if k == 'uncovered' or (n == 0 and modes.get('uncovered')):
+            continue                      # a mode served by code outside the generator: already reported as undecided
         rep.ob('tokenize() has a %s mode' % k, n >= 1, W(tk), 'StreamTokenizer.tokenize:missing-%s-mode' % k)
     # ---------------------------------------------------------------- split(): lazy
     sw = SplitWiring(cx)
@@ -103,6 +112,8 @@ def check(repo, rep):
     # split_and_join / list consumers are not part of the lazy path; workers iterate the generator directly (C12)
     from .c10 import check_one_inner_read
     check_one_inner_read(cx, rep)          # ... and each reader wrapper under split() passes one request on as one request
+    from .c20 import check_no_memoised_stateful
+    check_no_memoised_stateful(cx, rep)    # two generators alive at the same time never share one automaton
     rep.explanation = ('(1) From the tokenizer abstract interpretation (all states x inputs x 4 modes): exactly one source read per loop iteration and before any append/deliver; every token built in an '
                        'iteration is yielded in that same iteration (no stash, no deferred hand-over); after end of stream the loop is left, so end of stream is requested once; a token that is not a cut is '
                        'decided at most max(max_continuous_silence,0)+1 frames after its last frame (proved as an entailment). (2) Structural: tokenize() creates one generator and its callback / generator / '
